@@ -720,8 +720,12 @@ func c10(x *mon.Ctx) {
 	//      piecewise framing, HTTP/1.1 and HTTP/2, scripted error statuses with and without Retry-After
 	{
 		n := 0
-		for _, h2 := range []bool{false, true} {
-			pcs := mon.StartHTTPPCS(h2)
+		for vi, h2 := range []bool{false, true, false} {
+			start := mon.StartHTTPPCS
+			if vi == 2 { // the program's default transport is a wrapper type of its own, not a *http.Transport
+				start = mon.StartWrappedHTTPPCS
+			}
+			pcs := start(h2)
 			step := x.Pick(9, 1)
 			for i := 0; i < len(rcases); i += step {
 				c := rcases[i]
@@ -737,9 +741,9 @@ func c10(x *mon.Ctx) {
 				m := mon.MessageFor("built", c.Quote)
 				p := guardHang("verify.TdxQuote(production getter)", func() { _ = verify.TdxQuote(m, o) })
 				if p != "" {
-					x.Violation("hostile-response-over-real-http", fmt.Sprintf("%s/%s/h2=%v/%s", c.Class, c.Param, h2, pcs.Mode), p, "none", nil)
+					x.Violation("hostile-response-over-real-http", fmt.Sprintf("%s/%s/h2=%v/wrapped=%v/%s", c.Class, c.Param, h2, vi == 2, pcs.Mode), p, "none", nil)
 				}
-				x.Note("hostile-response-over-real-http", fmt.Sprintf("%s/%s/h2=%v/%s", c.Class, c.Param, h2, pcs.Mode), false, p != "", p == "")
+				x.Note("hostile-response-over-real-http", fmt.Sprintf("%s/%s/h2=%v/wrapped=%v/%s", c.Class, c.Param, h2, vi == 2, pcs.Mode), false, p != "", p == "")
 				n++
 			}
 			pcs.Close()
